@@ -270,7 +270,7 @@ def consumer_defines(ck):
             continue
         for d in f.find(lambda n: n.get("k") == "decl"):
             for v in d.get("vars", []):
-                if not v.get("auto") or "QString" not in (v.get("type") or "") or not isinstance(v.get("init"), dict):
+                if not v.get("auto") or (v.get("type") or "").replace("const ", "").replace("&", "").strip() != "QString" or not isinstance(v.get("init"), dict):
                     continue
                 i = skip_copies(v["init"])
                 if not (i.get("k") == "call" and i.get("op") == "+"):
